@@ -239,8 +239,10 @@ def amplify(ctx, scheds, rep, two_step_for=3, limit=6):
     """Divergence-directed amplification: the model no longer predicts the code after a diverging line, so the
     neighbourhood of the diverging prefixes is searched directly: prefix (up to and including the diverging input d) followed
     by every single next input y; for the first few prefixes also by every pair <<x, y>> over a reduced alphabet and by
-    <<x, d, y>> (the diverging input applied once more in a changed context, e.g. after a restart).  Prefixes that have not
-    processed a message at MAX come first (after one, every report carries the tag of the recorded finding)."""
+    <<x, d', y>> (the diverging input applied once more, with its time varied, in a changed context, e.g. after a restart,
+    followed by a message at any time).  A prefix that has
+    processed a message at MAX is also tried without those messages (after one, every report carries the tag of the
+    recorded wrap finding); such prefixes come first."""
     start, pos = {}, 1
     for i, (b, sn, s) in enumerate(scheds):
         start[i] = pos
@@ -251,15 +253,40 @@ def amplify(ctx, scheds, rep, two_step_for=3, limit=6):
         if tid not in first or k < first[tid]:
             first[tid] = k
     prefixes, seen = [], set()
-    def has_max(tid, k):
-        return MAX in re.findall(r'"lt": (\d+)', json.dumps(scheds[tid][2][:k])) or str(MAX) in re.findall(
-            r'"lt": (\d+)', json.dumps(scheds[tid][2][:k]))
-    for tid, k in sorted(first.items(), key=lambda x: (has_max(x[0], x[1]), x[1])):
+    def tainted(steps):
+        return any(st.get("lt") == MAX or any(sl["lt"] == MAX for sl in st.get("evs", [])) for st in steps)
+
+    def sanitized(steps):
+        """The same history without the messages at MAX (any input sequence is a legitimate history): reports found
+        behind it do not carry the tag of the recorded wrap finding."""
+        res = []
+        for st in steps:
+            if st.get("lt") == MAX:
+                continue
+            if st["a"] == "merge":
+                st = dict(st)
+                st["evs"] = [sl for sl in st["evs"] if sl["lt"] != MAX]
+                st["elt"] = 20 if st["elt"] == MAX else st["elt"]
+                st["qlt"] = 20 if st["qlt"] == MAX else st["qlt"]
+            res.append(st)
+        return res
+
+    cands = []
+    for tid, k in sorted(first.items(), key=lambda x: x[1]):
         b, sn, s = scheds[tid]
-        key = json.dumps([b, sn, s[:k]])
-        if key not in seen:
+        pre = s[:k]
+        if tainted(pre):
+            if not tainted([pre[-1]]) or pre[-1]["a"] == "merge":
+                cands.append((0, b, sn, sanitized(pre[:-1]) + sanitized([pre[-1]])))
+            cands.append((1, b, sn, pre))
+        else:
+            cands.append((0, b, sn, pre))
+    prefixes, seen = [], set()
+    for (t, b, sn, pre) in sorted(cands, key=lambda x: (x[0], len(x[3]))):
+        key = json.dumps([b, sn, pre])
+        if pre and key not in seen:
             seen.add(key)
-            prefixes.append((b, sn, s[:k]))
+            prefixes.append((b, sn, pre))
         if len(prefixes) >= limit:
             break
     out = []
@@ -273,9 +300,15 @@ def amplify(ctx, scheds, rep, two_step_for=3, limit=6):
                 for y in alphabet(sn, nl2, reduced=True):
                     out.append((b, sn, pre + [x, y]))
                 d = pre[-1]
-                if d["a"] not in ("uev", "lq", "restart"):
-                    for y in alphabet(sn, nl2):
-                        out.append((b, sn, pre + [x, d, y]))
+                if d["a"] in ("ev", "qry", "merge"):
+                    # the diverging input once more, with its time varied, in the changed context, then any message
+                    tkey = "elt" if d["a"] == "merge" else "lt"
+                    for tau in sorted(set([d[tkey], 1, 3, 20, MAX])):
+                        d2 = dict(d)
+                        d2[tkey] = tau
+                        for y in alphabet(sn, nl2):
+                            if y["a"] in ("ev", "qry") and y.get("k", y.get("id")) == 1:
+                                out.append((b, sn, pre + [x, d2, y]))
     return prefixes, out
 
 
